@@ -424,7 +424,7 @@ def judge_scan(tb: Table) -> tuple[list[Viol], list[str], list[str]]:
 
 
 USES = ("wrap", "wrap_dim", "wrap_named", "scaled", "ratio", "power", "convert_si", "convert_unit", "approx", "collect",
-    "abs", "float")
+    "abs", "float", "thread")
 
 
 def history_strategy() -> Any:
@@ -472,6 +472,17 @@ def _use(tb: Table, step: list[Any]) -> None:
             approx_equal_quantities(q, Quantity(q * sympy.Rational(1001, 1000)))
         elif kind == "collect":
             collect_quantity_factor_and_dimension(q * other / (k + 1))
+        elif kind == "thread":
+            # unrelated quantities created in a second thread (ids must stay unique across threads)
+            import threading
+
+            def work() -> None:
+                for j in range(30 + 5 * k):
+                    Quantity((j + 2) * units.second)
+
+            th = threading.Thread(target=work)
+            th.start()
+            th.join()
         elif kind == "abs":
             abs(q)
         elif kind == "float":
